@@ -420,13 +420,15 @@ var typeToSize = [256]int8{
 	I64:    8,
 }
 
-func skipstr(p unsafe.Pointer, e uintptr) (int, error) {
-	if uintptr(p)+uintptr(4) <= e {
+// e points to the last byte of the buffer. It must be a pointer, not a uintptr: the buffer may live on the
+// goroutine stack, which moves when it grows during the recursion below.
+func skipstr(p unsafe.Pointer, e unsafe.Pointer) (int, error) {
+	if uintptr(p)+uintptr(4) <= uintptr(e)+1 {
 		n := int(p2i32(p))
 		if n < 0 {
 			return 0, errNegativeSize
 		}
-		if uintptr(p)+uintptr(4+n) <= e {
+		if uintptr(p)+uintptr(4+n) <= uintptr(e)+1 {
 			return 4 + n, nil
 		}
 	}
@@ -439,16 +441,16 @@ func (BinaryProtocol) Skip(b []byte, t TType) (int, error) {
 		return 0, errBufferTooShort
 	}
 	p := unsafe.Pointer(&b[0])
-	e := uintptr(p) + uintptr(len(b))
+	e := unsafe.Pointer(&b[len(b)-1])
 	return skipType(p, e, t, defaultRecursionDepth)
 }
 
-func skipType(p unsafe.Pointer, e uintptr, t TType, maxdepth int) (int, error) {
+func skipType(p unsafe.Pointer, e unsafe.Pointer, t TType, maxdepth int) (int, error) {
 	if maxdepth == 0 {
 		return 0, errDepthLimitExceeded
 	}
 	if n := typeToSize[uint8(t)]; n > 0 {
-		if uintptr(p)+uintptr(n) > e {
+		if uintptr(p)+uintptr(n) > uintptr(e)+1 {
 			return 0, errBufferTooShort
 		}
 		return int(n), nil
@@ -458,7 +460,7 @@ func skipType(p unsafe.Pointer, e uintptr, t TType, maxdepth int) (int, error) {
 	case STRING:
 		return skipstr(p, e)
 	case MAP:
-		if uintptr(p)+uintptr(6) > e {
+		if uintptr(p)+uintptr(6) > uintptr(e)+1 {
 			return 0, errBufferTooShort
 		}
 		kt, vt, sz := TType(*(*byte)(p)), TType(*(*byte)(unsafe.Add(p, 1))), p2i32(unsafe.Add(p, 2))
@@ -468,14 +470,14 @@ func skipType(p unsafe.Pointer, e uintptr, t TType, maxdepth int) (int, error) {
 		ksz, vsz := int(typeToSize[uint8(kt)]), int(typeToSize[uint8(vt)])
 		if ksz > 0 && vsz > 0 { // fast path, fast skip
 			mapkvsize := (int(sz) * (ksz + vsz))
-			if uintptr(p)+uintptr(6+mapkvsize) > e {
+			if uintptr(p)+uintptr(6+mapkvsize) > uintptr(e)+1 {
 				return 0, errBufferTooShort
 			}
 			return 6 + mapkvsize, nil
 		}
 		i := 6
 		for j := int32(0); j < sz; j++ {
-			if uintptr(p)+uintptr(i) >= e {
+			if uintptr(p)+uintptr(i) >= uintptr(e)+1 {
 				return 0, errBufferTooShort
 			}
 			ki := 0
@@ -490,7 +492,7 @@ func skipType(p unsafe.Pointer, e uintptr, t TType, maxdepth int) (int, error) {
 				return i, err
 			}
 			i += ki
-			if uintptr(p)+uintptr(i) >= e {
+			if uintptr(p)+uintptr(i) >= uintptr(e)+1 {
 				return 0, errBufferTooShort
 			}
 			vi := 0
@@ -506,13 +508,13 @@ func skipType(p unsafe.Pointer, e uintptr, t TType, maxdepth int) (int, error) {
 			}
 			i += vi
 		}
-		if uintptr(p)+uintptr(i) > e {
+		if uintptr(p)+uintptr(i) > uintptr(e)+1 {
 			// the last value was fixed-size and truncated
 			return 0, errBufferTooShort
 		}
 		return i, nil
 	case LIST, SET:
-		if uintptr(p)+uintptr(5) > e {
+		if uintptr(p)+uintptr(5) > uintptr(e)+1 {
 			return 0, errBufferTooShort
 		}
 		vt, sz := TType(*(*byte)(p)), p2i32(unsafe.Add(p, 1))
@@ -522,14 +524,14 @@ func skipType(p unsafe.Pointer, e uintptr, t TType, maxdepth int) (int, error) {
 		vsz := int(typeToSize[uint8(vt)])
 		if vsz > 0 { // fast path, fast skip
 			listvsize := int(sz) * vsz
-			if uintptr(p)+uintptr(5+listvsize) > e {
+			if uintptr(p)+uintptr(5+listvsize) > uintptr(e)+1 {
 				return 0, errBufferTooShort
 			}
 			return 5 + listvsize, nil
 		}
 		i := 5
 		for j := int32(0); j < sz; j++ {
-			if uintptr(p)+uintptr(i) >= e {
+			if uintptr(p)+uintptr(i) >= uintptr(e)+1 {
 				return 0, errBufferTooShort
 			}
 			vi := 0
@@ -549,7 +551,7 @@ func skipType(p unsafe.Pointer, e uintptr, t TType, maxdepth int) (int, error) {
 	case STRUCT:
 		i := 0
 		for {
-			if uintptr(p)+uintptr(i) >= e {
+			if uintptr(p)+uintptr(i) >= uintptr(e)+1 {
 				return i, errBufferTooShort
 			}
 			ft := TType(*(*byte)(unsafe.Add(p, i)))
@@ -558,7 +560,7 @@ func skipType(p unsafe.Pointer, e uintptr, t TType, maxdepth int) (int, error) {
 				return i, nil
 			}
 			i += 2 // Field ID
-			if uintptr(p)+uintptr(i) >= e {
+			if uintptr(p)+uintptr(i) >= uintptr(e)+1 {
 				return i, errBufferTooShort
 			}
 			fi := 0
